@@ -12,6 +12,17 @@ Stage A  sequential differential: random operation sequences from 3 logical clie
 Stage B  concurrency on SQLite: goroutines x connections x OS processes on ONE database file,
          reopen, SIGKILL (also in mid-call); the recorded real-time history is decided window by
          window by the extracted, Coq-proved checker.
+Stage C  shared-instance stress (the documented deployment: ONE backend value shared by the logs of
+         a process): ~38 goroutines work on 34 log IDs through ONE SQLiteBackend (one connection,
+         real file) without global quiescent points: "busy" goroutines advance their own log with
+         valid handles, "stale" goroutines keep retrying Replace through superseded handles of
+         theirs, groups of 3 race on a shared log; busy-heavy and stale-heavy mixes, GOMAXPROCS 1
+         and all CPUs; the same (shorter) for one shared DynamoDBBackend / ETagBackend (one SDK
+         client). Every written value is unique per log, so three monitors are exact on the
+         recorded history (mon_stale_replace_refused, mon_failed_replace_no_effect,
+         mon_fetch_after_success), and the per-log histories, cut at their quiescent points, are
+         decided by the same extracted checker (a history whose projection on one log ID has no
+         linearization has none itself).
 """
 import os, random
 import checklib as L
@@ -30,6 +41,7 @@ TRUSTED = [
     "ASSUMED: one request per call. The AWS SDK retryer may re-send a PutItem/PutObject whose reply was lost after it was applied; the retry re-evaluates the condition (the call then fails although it took effect = result Unknown; with repeating values A->B->A it could be applied twice). Checkpoints never repeat (C01), sunlight treats every Replace error as fatal",
     "the fake DynamoDB and S3 endpoints (harness/lock/fakes.go) are hand transcriptions of the Coq server models dy_server / et_server (both ETag flavours); the differential run compares their replies with the model's replies line by line",
     "Go harness harness/lock (generators, classification of Go errors into refused/err, reference register of the monitors, CLOCK_MONOTONIC timestamps taken before/after each call, barrier = quiescent point between windows); harness/inject/internal/ctlog/zz_verif_lock.go (VerifClose, VerifLockHandle; tag verif)",
+    "stage C (harness/lock/stress.go): the three history monitors are exact only because every value written to a log ID is unique (worker tag + counter; checked by construction, not by a theorem); the per-log-ID linearizability check uses the easy half of locality (a linearization of the whole history restricted to one log ID is a linearization of the projection: operations on other IDs do not touch that ID's entry of the register), argued on paper, not in Coq; detection of a scheduling-dependent defect is probabilistic per run (Go scheduler, sync.Mutex hand-off, fsync latency)",
     "models Lock/Sqlite.v, Lock/Dynamo.v, Lock/Etag.v are hand transcriptions of sqlite.go, dynamodb.go, etag.go (and of crawshaw BindBytes nil->NULL / empty->zeroblob, AWS SDK serialisation as observed on the wire), tied by the differential run",
 ]
 ASSUME = [
@@ -97,12 +109,20 @@ def conc_stage(res, hexe, mexe, tier, seed, replay_lines=None):
         if l.startswith("stat|"):
             f = l.split("|")
             st["stats"][f[1]] = int(f[3])
+    decide_windows(res, mexe, wins, st,
+                   "the recorded real-time history of the SQLite lock backend (goroutines x connections x processes on one database file)",
+                   "SQLite history not linearizable at run %s window %d")
+    return st, wins
+
+
+def decide_windows(res, mexe, wins, st, what, headline, max_shown=3, prefix=""):
+    """win|tag|k|ops lines (one winreset|tag per history) -> extracted checker; fills st, records violations"""
     st["runs"] = len([l for l in wins if l.startswith("winreset|")])
     mlines, err = D.run_model(mexe, "\n".join(wins) + "\n")
     if mlines is None:
         p = L.write_replay(PROP, "model_failure.txt", err)
         res.violation(p, "extracted checker did not run: " + err[:200], no_input=True)
-        return st, []
+        return
     mons = [l for l in mlines if l.startswith("mon_lin|")]
     shown = 0
     for m in mons:
@@ -114,22 +134,74 @@ def conc_stage(res, hexe, mexe, tier, seed, replay_lines=None):
         st["window_sizes"][str(n)] = st["window_sizes"].get(str(n), 0) + 1
         if r != "holds":
             st["window_failures"] += 1
-            if shown < 3:
+            if shown < max_shown:
                 shown += 1
                 run, k = a[0], int(a[1])
-                hist = ["winreset|%s|=>|ok" % run]
-                for l in wins:
-                    f = l.split("|")
-                    if f[0] == "win" and f[1] == run and int(f[2]) <= k:
-                        hist.append(l)
-                p = L.write_replay(PROP, "nonlinearizable_run%s_window%d.txt" % (run, k),
-                                   "the recorded real-time history of the SQLite lock backend (goroutines x connections x processes on one database file) has NO linearization accepted by the compare-and-swap register (checker: extracted linearizable_b / search_windows, proved sound AND complete per window in Coq).\nfirst offending window: run %s window %d\nhistory up to it (replay: ./check %s --replay <this file>):\n%s\n" % (run, k, PROP, "\n".join(hist)))
-                res.violation(p, "SQLite history not linearizable at run %s window %d" % (run, k))
+                p = L.write_replay(PROP, "%snonlinearizable_run%s_window%d.txt" % (prefix, run, k),
+                                   "%s has NO linearization accepted by the compare-and-swap register (checker: extracted linearizable_b / search_windows, proved sound AND complete per window in Coq).\nfirst offending window: run %s window %d\nhistory up to it (replay: ./check %s --replay <this file>):\n%s\n" % (what, run, k, PROP, "\n".join(history_of(wins, run, k))))
+                res.violation(p, headline % (run, k))
     nwin_in = len([l for l in wins if l.startswith("win|")])
     if st["windows"] + 0 < nwin_in and st["window_failures"] == 0:
         p = L.write_replay(PROP, "model_failure.txt", "checker printed %d verdicts for %d windows" % (st["windows"], nwin_in))
         res.violation(p, "extracted checker skipped windows", no_input=True)
-    return st, wins
+
+
+def history_of(wins, run, k=None):
+    hist = ["winreset|%s|=>|ok" % run]
+    for l in wins:
+        f = l.split("|")
+        if f[0] == "win" and f[1] == run and (k is None or int(f[2]) <= k):
+            hist.append(l)
+    return hist
+
+
+def stress_stage(res, hexe, mexe, tier, seed):
+    """stage C: one backend instance shared by many goroutines / log IDs (harness/lock/stress.go)"""
+    st = {"windows": 0, "window_failures": 0, "ops": 0, "max_window": 0, "window_sizes": {}, "stats": {}, "runs": 0,
+          "monitors": {}, "monitor_failures": 0}
+    scale = 1 if tier == "quick" else 3
+    rc, out, dt = L.run([hexe, "-mode=stress", "-seed=%d" % seed, "-scale=%d" % scale], timeout=900)
+    st["harness_wall_s"] = round(dt, 2)
+    st["config"] = ("ONE SQLiteBackend (one connection, real file): phases 24 busy + 8 stale / 8 busy + 24 stale at GOMAXPROCS 1, 16 busy + 16 stale on all CPUs, "
+                    "each plus 2 groups of 3 goroutines on a shared log ID, every goroutine-owned log ID distinct, no global quiescent point; "
+                    "ONE DynamoDBBackend / ETagBackend (content-hash and version ETags) against the protocol fakes: 8 busy + 8 stale + 1 group; scale %d" % scale)
+    if rc != 0:
+        p = L.write_replay(PROP, "stress_harness_failure.txt", "shared-instance stress harness failed (rc=%d)\n%s" % (rc, out[-6000:]))
+        res.violation(p, "shared-instance stress harness did not run to completion", no_input=True)
+        return st
+    lines = [l for l in out.split("\n") if "|=>|" in l]
+    wins = [l for l in lines if l.startswith("win")]
+    for l in lines:
+        if l.startswith("stat|"):
+            f = l.split("|")
+            st["stats"][f[1]] = int(f[3])
+    shown = 0
+    for l in lines:
+        if not l.startswith("mon_"):
+            continue
+        op, a, r = D.split_line(l)
+        m = st["monitors"].setdefault(op, {"lines": 0, "calls_judged": 0, "failures": 0})
+        m["lines"] += 1
+        if len(a) >= 3 and a[2].isdigit():
+            m["calls_judged"] += int(a[2])
+        if r == "holds":
+            continue
+        m["failures"] += 1
+        st["monitor_failures"] += 1
+        if shown < 3:
+            shown += 1
+            tag = r.split(":")[1][4:] if r.startswith("FAILS:log-") else None
+            hist = history_of(wins, tag) if tag else []
+            p = L.write_replay(PROP, "stress_%s_%s.txt" % (op, L.digest(l)),
+                               "property monitor %s failed on the implementation: ONE lock backend instance shared by concurrent goroutines working on several log IDs (phase %s) is not a compare-and-swap register for log %s.\n"
+                               "records are call:start_ns:finish_ns:result with call = f:<logID> | r:<logID>:<old value>:<new value> | c:<logID>:<value> (hex), result = v<value> | nf | ok | ref (conflict reported) | unk\n"
+                               "monitor line (replay with ./check %s --replay <this file>):\n%s\n\ncomplete recorded history of that log ID, cut at its quiescent points (decided by the extracted checker on replay):\n%s\n"
+                               % (op, a[0] if a else "?", tag, PROP, l, "\n".join(hist)))
+            res.violation(p, "monitor %s [%s]: %s" % (op, a[0] if a else "?", r[:600]))
+    decide_windows(res, mexe, wins, st,
+                   "the recorded real-time history of ONE log ID on a lock backend instance shared by concurrent goroutines working on several log IDs (tag = backend.phase.log)",
+                   "shared-instance history not linearizable at log %s window %d", max_shown=2, prefix="stress_")
+    return st
 
 
 def retry_probe(res, hexe):
@@ -162,7 +234,7 @@ def main(tier, seed, replay):
     if mexe is None and ok:
         p = L.write_replay(PROP, "model_build.txt", mlog[-6000:])
         res.violation(p, "model extraction/build failed", no_input=True)
-    st, work, mlines, cst, wins, probe = {}, [], [], {}, [], {}
+    st, work, mlines, cst, wins, probe, sst = {}, [], [], {}, [], {}, {}
     ncross = 0
     if hexe and mexe:
         nseq, nops = (10, 40) if tier == "quick" else (70, 60)
@@ -184,6 +256,7 @@ def main(tier, seed, replay):
         if not replay or replay_wins:
             cst, wins = conc_stage(res, hexe, mexe, tier, seed, replay_wins if replay else None)
         if not replay:
+            sst = stress_stage(res, hexe, mexe, tier, seed)
             probe = retry_probe(res, hexe)
     if not ok and not res.violations:
         res.violation(getattr(res, "coq_failure", L.write_replay(PROP, "coq_failure.txt", "proof stage failed")),
@@ -209,9 +282,9 @@ def main(tier, seed, replay):
             elif "00" in [v[i:i + 2] for i in range(0, len(v), 2)]: values["with_NUL"] += 1
     mon_ops = {k: v for k, v in st.get("ops", {}).items() if k.startswith("mon_")}
     cov.update({
-        "evaluations": len(ops) + cst.get("ops", 0),
-        "distinct_nontrivial": len(nontrivial) + cst.get("windows", 0),
-        "rule": "stage A: one evaluation = one Fetch/Replace/Create call of a real ctlog lock backend inside a generated sequence (3 logical clients, stale handles, values incl. nil, empty, NUL-containing, 1 KB, a signed-checkpoint text; every sequence starts with a Fetch of a never-created ID), compared with the extracted client-over-server model incl. the request on the wire and the server's reply; non-trivial = result is not notfound/err; distinct by harness line. stage B: one evaluation = one call on the shared SQLite file, distinct = windows of <= 8 overlapping calls decided by the extracted checker",
+        "evaluations": len(ops) + cst.get("ops", 0) + sst.get("ops", 0),
+        "distinct_nontrivial": len(nontrivial) + cst.get("windows", 0) + sst.get("windows", 0),
+        "rule": "stage A: one evaluation = one Fetch/Replace/Create call of a real ctlog lock backend inside a generated sequence (3 logical clients, stale handles, values incl. nil, empty, NUL-containing, 1 KB, a signed-checkpoint text; every sequence starts with a Fetch of a never-created ID), compared with the extracted client-over-server model incl. the request on the wire and the server's reply; non-trivial = result is not notfound/err; distinct by harness line. stage B: one evaluation = one call on the shared SQLite file, distinct = windows of <= 8 overlapping calls decided by the extracted checker. stage C: one evaluation = one call on the ONE shared backend instance (values unique per log ID), distinct = windows of the per-log-ID histories (<= 6 overlapping calls; 1 for logs owned by one goroutine) decided by the extracted checker",
         "samples": [l[:260] for l in ops[:2]] + [l[:260] for l in ops if l.startswith("replace|etagv")][:1]
                    + [l[:260] for l in ops if l.startswith("create|dynamo") and "|nil|" in l][:1] + [w[:300] for w in wins if w.startswith("win|")][:2],
         "traces_validated_against_impl": len(work) - st.get("diffs", 0),
@@ -223,6 +296,7 @@ def main(tier, seed, replay):
         "fetch_of_missing_log_answered_notfound": never_created,
         "value_distribution": values,
         "sqlite_concurrency": {k: cst.get(k) for k in ("config", "runs", "windows", "ops", "max_window", "window_sizes", "window_failures", "stats", "harness_wall_s")},
+        "shared_instance_stress": {k: sst.get(k) for k in ("config", "runs", "windows", "ops", "max_window", "window_sizes", "window_failures", "monitors", "monitor_failures", "stats", "harness_wall_s")},
         "sdk_retry_probe_candidate_finding": probe,
         "wire_observation": "Create sends the header bytes 'If-Match: ' (empty value, once); Replace sends the fetched ETag verbatim incl. quotes; GET carries Cache-Control: no-cache and X-Tigris-Cas: true; a nil Go slice reaches DynamoDB as {\"B\": null}",
         "trusted_base": TRUSTED + ["repo " + L.repo_rev()],
